@@ -450,3 +450,7 @@ def _string_bounds_across_modules(ctx):
 
 
 DIRECTED = {"documented-equivalences": _directed, "string-bounds-across-modules": _string_bounds_across_modules}
+from ..suite_leg import make as _suite_leg  # noqa: E402
+
+DIRECTED["suite-under-monitors"] = _suite_leg("C15")
+
